@@ -752,6 +752,25 @@ func WalkPaths(fn *ssa.Function, opts PathOpts, visit func(p *Path) bool) (n int
 						nf[k3] = (edgeTrue == p2)
 					}
 				}
+				// a branch on the result of an inlined call is a branch on what the callee returned
+				if inl && len(p.retBind) > 0 {
+					if k2.op == token.ILLEGAL {
+						if br, ok := p.retBind[k2.x]; ok {
+							k4, p4 := normCond(p.resolveNoStrip(br.v, br.seg))
+							if k4 != k2 {
+								nf[k4] = ((edgeTrue == p2) == p4)
+							}
+						}
+					} else if k2.y == nil {
+						if br, ok := p.retBind[k2.x]; ok {
+							k4 := k2
+							k4.x = canon(p.Resolve(br.v, br.seg))
+							if k4 != k2 && !isNilConst(k4.x) {
+								nf[k4] = (edgeTrue == p2)
+							}
+						}
+					}
+				}
 				rec(s, 0, nf, fr, k)
 			}
 		case *ssa.Jump:
